@@ -148,10 +148,15 @@ def run(ctx):
 
     # (a) arbitrary trees
     tg = gen.TreeGen(rng, layout="partial", wild=0.3, none_items=0.06)
+    hist = trees.SharedObjects(ctx, rng, "LuceneCheck")
+    I = common.impl()
     for i in range(ctx.budget(300, 6000)):
         d = common.normalize(tg.any())
         zeal = rng.choice([0, 1, 2])
         errs = both(d, zeal, {"tree": d, "zeal": zeal})
+        if i % 3 == 0:
+            hist.check(zeal, lambda: I.check.LuceneCheck(zeal=zeal), lambda c, t: (c(t), c.errors(t), c(t)), d,
+                       {"tree": d, "zeal": zeal})
         n = sum(1 for _ in common.tree_nodes(d))
         ctx.case((repr(common.strip_tree(d)), zeal), nontrivial=n > 1)
         ctx.count("arbitrary")
